@@ -1,7 +1,7 @@
-use std::io;
+use std::{io, ops::Range};
 
 use bstr::BStr;
-use noodles_core::Position;
+use noodles_core::{Position, position::SequenceIndex};
 use noodles_fasta as fasta;
 use noodles_sam::{
     self as sam,
@@ -130,10 +130,11 @@ fn cigar_to_features(
         match op.kind() {
             Kind::Match | Kind::SequenceMatch | Kind::SequenceMismatch => {
                 if op.len() == 1 {
-                    let raw_reference_base = reference_sequence[reference_position];
-                    let raw_read_base = sequence[read_position];
+                    let raw_reference_base =
+                        get_reference_base(reference_sequence, reference_position)?;
+                    let raw_read_base = get_base(sequence, read_position)?;
 
-                    let quality_score = quality_scores[read_position];
+                    let quality_score = get_quality_score(quality_scores, read_position)?;
 
                     if !flags.quality_scores_are_stored_as_array() {
                         features.push(Feature::QualityScore {
@@ -168,7 +169,8 @@ fn cigar_to_features(
                         .expect("attempt to add with overflow");
 
                     if !flags.quality_scores_are_stored_as_array() {
-                        let quality_scores = quality_scores[read_position..read_end].to_vec();
+                        let quality_scores =
+                            get_quality_scores(quality_scores, read_position..read_end)?.to_vec();
 
                         features.push(Feature::Scores {
                             position: read_position,
@@ -180,8 +182,9 @@ fn cigar_to_features(
                         .checked_add(op.len())
                         .expect("attempt to add with overflow");
 
-                    let reference_bases = &reference_sequence[reference_position..reference_end];
-                    let read_bases = &sequence[read_position..read_end];
+                    let reference_bases =
+                        get_reference_bases(reference_sequence, reference_position..reference_end)?;
+                    let read_bases = get_bases(sequence, read_position..read_end)?;
 
                     for (i, (&raw_reference_base, &raw_read_base)) in
                         reference_bases.iter().zip(read_bases).enumerate()
@@ -201,7 +204,8 @@ fn cigar_to_features(
                                     read_base,
                                 }
                             } else {
-                                let quality_score = quality_scores[read_position];
+                                let quality_score =
+                                    get_quality_score(quality_scores, read_position)?;
 
                                 Feature::ReadBase {
                                     position,
@@ -217,14 +221,14 @@ fn cigar_to_features(
             }
             Kind::Insertion => {
                 if op.len() == 1 {
-                    let base = sequence[read_position];
+                    let base = get_base(sequence, read_position)?;
                     features.push(Feature::InsertBase {
                         position: read_position,
                         base,
                     });
 
                     if !flags.quality_scores_are_stored_as_array() {
-                        let quality_score = quality_scores[read_position];
+                        let quality_score = get_quality_score(quality_scores, read_position)?;
 
                         features.push(Feature::QualityScore {
                             position: read_position,
@@ -236,14 +240,15 @@ fn cigar_to_features(
                         .checked_add(op.len())
                         .expect("attempt to add with overflow");
 
-                    let bases = sequence[read_position..end].to_vec();
+                    let bases = get_bases(sequence, read_position..end)?.to_vec();
                     features.push(Feature::Insertion {
                         position: read_position,
                         bases,
                     });
 
                     if !flags.quality_scores_are_stored_as_array() {
-                        let quality_scores = quality_scores[read_position..end].to_vec();
+                        let quality_scores =
+                            get_quality_scores(quality_scores, read_position..end)?.to_vec();
 
                         features.push(Feature::Scores {
                             position: read_position,
@@ -265,7 +270,7 @@ fn cigar_to_features(
                     .checked_add(op.len())
                     .expect("attempt to add with overflow");
 
-                let bases = &sequence[read_position..end];
+                let bases = get_bases(sequence, read_position..end)?;
 
                 features.push(Feature::SoftClip {
                     position: read_position,
@@ -274,14 +279,15 @@ fn cigar_to_features(
 
                 if !flags.quality_scores_are_stored_as_array() {
                     if bases.len() == 1 {
-                        let quality_score = quality_scores[read_position];
+                        let quality_score = get_quality_score(quality_scores, read_position)?;
 
                         features.push(Feature::QualityScore {
                             position: read_position,
                             quality_score,
                         });
                     } else {
-                        let quality_scores = quality_scores[read_position..end].to_vec();
+                        let quality_scores =
+                            get_quality_scores(quality_scores, read_position..end)?.to_vec();
 
                         features.push(Feature::Scores {
                             position: read_position,
@@ -314,6 +320,65 @@ fn cigar_to_features(
     }
 
     Ok(features)
+}
+
+fn get_reference_base(
+    reference_sequence: &fasta::record::Sequence,
+    position: Position,
+) -> io::Result<u8> {
+    reference_sequence
+        .get(position)
+        .copied()
+        .ok_or_else(invalid_reference_position_error)
+}
+
+fn get_reference_bases(
+    reference_sequence: &fasta::record::Sequence,
+    range: Range<Position>,
+) -> io::Result<&[u8]> {
+    reference_sequence
+        .get(range)
+        .ok_or_else(invalid_reference_position_error)
+}
+
+fn invalid_reference_position_error() -> io::Error {
+    io::Error::new(
+        io::ErrorKind::InvalidInput,
+        "alignment extends past the end of the reference sequence",
+    )
+}
+
+fn get_base(sequence: &Sequence, position: Position) -> io::Result<u8> {
+    position
+        .get(sequence.as_ref())
+        .copied()
+        .ok_or_else(invalid_read_position_error)
+}
+
+fn get_bases(sequence: &Sequence, range: Range<Position>) -> io::Result<&[u8]> {
+    range
+        .get(sequence.as_ref())
+        .ok_or_else(invalid_read_position_error)
+}
+
+fn get_quality_score(quality_scores: &QualityScores, position: Position) -> io::Result<u8> {
+    position
+        .get(quality_scores.as_ref())
+        .copied()
+        .ok_or_else(invalid_read_position_error)
+}
+
+fn get_quality_scores(quality_scores: &QualityScores, range: Range<Position>) -> io::Result<&[u8]> {
+    range
+        .get(quality_scores.as_ref())
+        .ok_or_else(invalid_read_position_error)
+}
+
+fn invalid_read_position_error() -> io::Error {
+    io::Error::new(
+        io::ErrorKind::InvalidInput,
+        "CIGAR extends past the end of the sequence or quality scores",
+    )
 }
 
 #[allow(clippy::type_complexity)]
@@ -367,6 +432,47 @@ mod tests {
             get_read_group_id(&header, read_group_name),
             Err(e) if e.kind() == io::ErrorKind::InvalidInput
         ));
+
+        Ok(())
+    }
+
+    #[test]
+    fn test_cigar_to_features_with_invalid_alignment() -> Result<(), Box<dyn std::error::Error>> {
+        fn t(cigar: &Cigar, alignment_start: Position, sequence: &[u8], quality_scores: &[u8]) {
+            let reference_sequence = fasta::record::Sequence::from(b"ACGT".to_vec());
+            let sequence = Sequence::from(sequence);
+            let quality_scores = quality_scores.iter().copied().collect();
+
+            assert!(matches!(
+                cigar_to_features(
+                    cigar,
+                    &reference_sequence,
+                    Flags::default(),
+                    alignment_start,
+                    &sequence,
+                    &quality_scores,
+                ),
+                Err(e) if e.kind() == io::ErrorKind::InvalidInput
+            ));
+        }
+
+        let cigar: Cigar = [Op::new(Kind::Match, 2)].into_iter().collect();
+
+        // The sequence is missing.
+        t(&cigar, Position::MIN, b"", &[]);
+        // The CIGAR operations consume more bases than the sequence has.
+        t(&cigar, Position::MIN, b"A", &[45]);
+        // The quality scores are shorter than the sequence.
+        t(&cigar, Position::MIN, b"AC", &[45]);
+        // The alignment extends past the end of the reference sequence.
+        t(&cigar, Position::try_from(4)?, b"TT", &[45, 35]);
+        t(&cigar, Position::try_from(6)?, b"TT", &[45, 35]);
+
+        let cigar: Cigar = [Op::new(Kind::SoftClip, 1), Op::new(Kind::Insertion, 1)]
+            .into_iter()
+            .collect();
+
+        t(&cigar, Position::MIN, b"A", &[45]);
 
         Ok(())
     }
